@@ -93,18 +93,49 @@ def _regeneration(ctx, r3):
                  "three successive generations of the same element build the same control", bx.loc(), why_fail=f"{runs}"[:300])
 
 
-def run(ctx):
+def _trigger_lookup_readonly(ctx, r3):
+    """The trigger tables are the builder's defaultdict(list) objects handed to the survey: a lookup that indexes them
+    (instead of .get) creates an entry for every question rendered, and the next generation resolves every such key as
+    a trigger reference.  Evaluated: builder.__init__ + _save_trigger build the tables, the survey's lookup is called for
+    triggering and non-triggering names, and the tables must be exactly as before."""
+    from ..interp import Obj, Raised
     repo = ctx.repo
-    it0 = ctx.consts.interp
-    rules = []
-    cg = CallGraph(repo, it0)
-    reach = cg.reachable(["pyxform.xls2xform:convert"])
+    bcls = repo.cls("pyxform.builder:SurveyElementBuilder")
+    scls = repo.cls("pyxform.survey:Survey")
+    look = scls.methods.get("get_trigger_values_for_question_name")
+    if look is None:
+        r3.fail("trigger lookup", "Survey.get_trigger_values_for_question_name exists (anchor)", "pyxform/survey.py")
+        return
+    for rows in ([{"name": "c1", "type": "calculate", "trigger": "${t}", "bind": {"calculate": "1"}}, {"name": "p", "type": "background-geopoint", "trigger": "${t}"}], []):
+        it = ctx.interp("C14.R3")
+        it.reset([])
+        b = Obj(bcls, {}, name="builder")
+        it.call_function(bcls.methods["__init__"], [b], {}, None, None)
+        for d in rows:
+            it.call_function(bcls.methods["_save_trigger"], [b], {"d": d}, None, None)
+        sv = Obj(scls, {"setvalues_by_triggering_ref": b.attrs.get("setvalues_by_triggering_ref"), "setgeopoint_by_triggering_ref": b.attrs.get("setgeopoint_by_triggering_ref")}, name="survey")
+        before = ({k: list(v) for k, v in sv.attrs["setvalues_by_triggering_ref"].items()}, {k: list(v) for k, v in sv.attrs["setgeopoint_by_triggering_ref"].items()})
+        outs = []
+        try:
+            for qn in ("t", "other", "c1"):
+                for kind in ("setvalue", "setgeopoint"):
+                    outs.append(it.call_function(look, [sv], {"question_name": qn, "trigger_type": kind}, None, look.node))
+        except Raised as e:
+            outs = f"raises {e.exc_name}{e.exc_args}"
+        after = ({k: list(v) for k, v in sv.attrs["setvalues_by_triggering_ref"].items()}, {k: list(v) for k, v in sv.attrs["setgeopoint_by_triggering_ref"].items()})
+        r3.check(isinstance(outs, list) and after == before, f"trigger lookup[{len(rows)} trigger row(s)]", "looking a question up leaves both trigger tables exactly as they were (no entry created by reading)", look.loc(),
+                 why_fail=f"tables before {before} after {after}; lookups {outs!r}"[:300])
+        if isinstance(outs, list) and rows:
+            r3.check(outs[0] == [("c1", "1")] and outs[1] == [("p", "")] and not outs[2] and not outs[3], "trigger lookup[answers]", "the triggering question gets its actions, the others nothing", look.loc(), why_fail=repr(outs)[:200])
+
+
+def module_state_obligations(ctx, r1, only_writers=None):
+    """Every module-level mutable object (dict / list / set literals and constructors, instances of repository classes,
+    objects of library classes such as a StringIO) and every function of the package that writes it.  `only_writers`
+    restricts the report to writers satisfying the predicate (used by C15 for the serialiser classes)."""
+    repo = ctx.repo
     funcs = [f for f in repo.all_functions()]
     pmut = param_mutation_summary(repo)
-
-    # ------------------------------------------------------------------ R1
-    r1 = Rule("C14", "C14.R1", "no run-time writer of module-level mutable state", floor=25,
-              necessary="a module-level table written during a conversion changes the result of the next conversion in the process")
     muts = module_mutables(repo)
     ctx.count("module_level_mutables", len(muts))
     idents = {}
@@ -130,6 +161,15 @@ def run(ctx):
                     continue
                 if refers_to_global(repo, fi, tgt, m, name) or (root_name(tgt) in aliases):
                     writers.append((fi, node, wkind))
+            if kind.startswith("external:"):
+                # a library object: every method call on it (other than the known read-only ones) is a state change
+                from ..effects import READ_ONLY_METHODS
+                for c in walk_own(fi.node):
+                    if isinstance(c, ast.Call) and isinstance(c.func, ast.Attribute) and c.func.attr not in READ_ONLY_METHODS and \
+                            (refers_to_global(repo, fi, c.func.value, m, name) or (isinstance(c.func.value, ast.Name) and c.func.value.id in aliases)):
+                        writers.append((fi, c, f"method {c.func.attr}() of a shared library object"))
+                    elif isinstance(c, ast.Call) and any(refers_to_global(repo, fi, a_, m, name) and not isinstance(a_, ast.Call) for a_ in [*c.args, *[k_.value for k_ in c.keywords]]):
+                        writers.append((fi, c, f"handed to {call_name(c)}() (a shared library object used as a per-call buffer)"))
             # passed to a parameter-mutating callee
             for c in walk_own(fi.node):
                 if not isinstance(c, ast.Call):
@@ -143,10 +183,28 @@ def run(ctx):
                             if i + off < len(gp) and gp[i + off] in pmut.get(g.fq, ()):
                                 writers.append((fi, c, f"passed to {g.qualname} which mutates parameter {gp[i + off]}"))
         key = f"{m.name}.{name}"
+        if only_writers is not None:
+            writers = [w for w in writers if only_writers(w[0])]
         if not writers:
             r1.ok(key, f"module-level {kind}: no function in the package writes it", f"{m.relpath}:{st.lineno}")
         for fi, node, how in writers:
             r1.fail(f"{key} <- {fi.fq}:{norm(node)[:50]}", f"module-level {kind} is written at run time ({how})", fi.loc(node))
+    return muts
+
+
+def run(ctx):
+    repo = ctx.repo
+    it0 = ctx.consts.interp
+    rules = []
+    cg = CallGraph(repo, it0)
+    reach = cg.reachable(["pyxform.xls2xform:convert"])
+    funcs = [f for f in repo.all_functions()]
+    pmut = param_mutation_summary(repo)
+
+    # ------------------------------------------------------------------ R1
+    r1 = Rule("C14", "C14.R1", "no run-time writer of module-level mutable state", floor=25,
+              necessary="a module-level table written during a conversion changes the result of the next conversion in the process")
+    muts = module_state_obligations(ctx, r1)
     rules.append(r1)
 
     # ------------------------------------------------------------------ R1b
@@ -249,6 +307,32 @@ def run(ctx):
                         bad = [node for wkind, tgt, node in writes_in(cf.node) if wkind != "augname" and root_name(tgt) in bound]
                         r2.check(not bad, f"{cf.fq}:uses {f.name}()", "the shared (cached) result is not mutated by this caller", cf.loc(c),
                                  why_fail=f"{[norm(b)[:40] for b in bad]}")
+    # object identity as data: id(x) is only unique among LIVE objects (CPython hands a collected survey's address to the
+    # next one), so an id that outlives the function that took it - a key in a closure / module / object table - answers
+    # a later conversion from an earlier one's entries.  Accepted: __hash__/__repr__/__str__ (the id never leaves the
+    # object it names) and ids kept in containers created by the same call (visited sets).
+    n_id = 0
+    for f in funcs:
+        for c in walk_own(f.node):
+            if isinstance(c, ast.Call) and isinstance(c.func, ast.Name) and c.func.id == "id" and len(c.args) == 1:
+                n_id += 1
+                if f.name in ("__hash__", "__repr__", "__str__", "__unicode__"):
+                    r2.ok(f"{f.fq}:id()", "identity stays with the object it names (hash / repr)", f.loc(c))
+                    continue
+                stores = set()
+                for wkind, tgt, node in writes_in(f.node):
+                    if wkind != "augname" and isinstance(tgt, ast.Subscript | ast.Attribute):
+                        stores.add(root_name(tgt))
+                for x in walk_own(f.node):
+                    if isinstance(x, ast.Call) and isinstance(x.func, ast.Attribute) and x.func.attr in ("add", "append", "setdefault", "update", "insert", "extend") and isinstance(x.func.value, ast.Name):
+                        stores.add(x.func.value.id)
+                for x in walk_own(f.node):
+                    if isinstance(x, ast.Return | ast.Yield) and x.value is not None and any(y is c for y in ast.walk(x.value)):
+                        stores.add("<returned>")
+                outliving = sorted(s_ for s_ in stores if s_ is not None and not _locally_created(f, s_))
+                r2.check(not outliving, f"{f.fq}:id({norm(c.args[0])[:20]})", "an object's id does not outlive the call that took it (no identity-keyed table)", f.loc(c),
+                         why_fail=f"kept in {outliving}: ids are reused once the object is collected, so a later survey is answered from an earlier one's entries")
+    ctx.count("id_calls_inspected", n_id)
     rules.append(r2)
 
     # ------------------------------------------------------------------ R3
@@ -298,6 +382,32 @@ def run(ctx):
             elif wkind == "del":
                 r3.fail(key, "deletion from survey/element state during generation", fi.loc(node))
     _regeneration(ctx, r3)
+    _trigger_lookup_readonly(ctx, r3)
+    # the general form: attributes that hold a defaultdict (census of `self.X = defaultdict(...)`) are never INDEXED for
+    # reading by code reachable from generation - directly or through a local alias; indexing creates the entry
+    dd_attrs = set()
+    for fi in funcs:
+        for x in walk_own(fi.node):
+            if isinstance(x, ast.Assign | ast.AnnAssign) and x.value is not None and isinstance(x.value, ast.Call) and call_name(x.value) == "defaultdict":
+                for t in (x.targets if isinstance(x, ast.Assign) else [x.target]):
+                    if isinstance(t, ast.Attribute):
+                        dd_attrs.add(t.attr)
+    survey_init = repo.cls("pyxform.survey:Survey").methods["__init__"]
+    dd_attrs &= {t.attr for x in walk_own(survey_init.node) if isinstance(x, ast.Assign | ast.AnnAssign) for t in (x.targets if isinstance(x, ast.Assign) else [x.target])
+                 if isinstance(t, ast.Attribute) and isinstance(t.value, ast.Name) and t.value.id == "self"}  # those the survey keeps across generations
+    seen_positive = 0
+    for fi in funcs:
+        aliases = set()
+        for x in walk_own(fi.node):
+            if isinstance(x, ast.Assign) and isinstance(x.value, ast.Attribute) and x.value.attr in dd_attrs:
+                aliases |= {t.id for t in x.targets if isinstance(t, ast.Name)}
+        for x in walk_own(fi.node):
+            if isinstance(x, ast.Subscript) and isinstance(x.ctx, ast.Load) and ((isinstance(x.value, ast.Attribute) and x.value.attr in dd_attrs) or (isinstance(x.value, ast.Name) and x.value.id in aliases)):
+                if fi.fq in gen_reach and fi.name != "__init__":
+                    r3.fail(f"{fi.fq}:{norm(x)[:50]}", "a defaultdict table is read with .get()/in during generation (indexing it creates an entry on every read)", fi.loc(x))
+                else:
+                    seen_positive += 1
+    r3.check(bool(dd_attrs) and seen_positive >= 1, "defaultdict tables:census", f"tables {sorted(dd_attrs)}; {seen_positive} construction-time indexing site(s) recognised (builder), none reachable from generation", "pyxform/builder.py")
     rules.append(r3)
 
     # ------------------------------------------------------------------ R4
@@ -440,6 +550,31 @@ def fresh_rows_obligations(ctx, r7, rid):
             out = f"raises {e.exc_name}"
         r7.check(isinstance(out, dict) and out is not row and row == before, f"process_row[{desc}]", "returns a new dict and leaves the caller's row as it was", pr.loc(),
                  why_fail=("the caller's row object itself is returned: the row loop's pops (disabled, ...) then consume the caller's input" if out is row else repr(out)[:120]))
+
+
+    # ... and so does the whole header pass, whichever route a row takes through it (plain headers, aliased, grouped)
+    dg = ctx.func("pyxform.parsing.sheet_headers:dealias_and_group_headers", rid)
+    sh_ = ctx.consts.get("pyxform.aliases", "survey_header", rid)
+    cols_ = set(ctx.consts.get("pyxform.question", "SELECT_QUESTION_FIELDS", rid))
+    for desc, rows in (("rows using plain headers only", [{"type": "text", "name": "a", "label": "A", "disabled": "yes", "__row": 2}, {"type": "text", "name": "b", "__row": 3}]),
+                       ("plain and translated rows mixed", [{"type": "text", "name": "a", "__row": 2}, {"type": "text", "name": "b", "label::en": "B", "__row": 3}]),
+                       ("an empty row between plain rows", [{"type": "text", "name": "a"}, {}, {"type": "note", "name": "n"}])):
+        itd = ctx.interp(rid, hooks={"new:DealiasAndGroupHeadersResult": lambda i, a, k, n: dict(k) if k else {"headers": a[0], "data": a[1]}})
+        itd.reset([])
+        before = [dict(r_) for r_ in rows]
+        hdr = {}
+        for r_ in rows:
+            for k_ in r_:
+                hdr.setdefault(k_, None)
+        try:
+            res_ = itd.call_function(dg, [], {"sheet_name": "survey", "sheet_data": rows, "sheet_header": [hdr], "header_aliases": sh_, "header_columns": cols_,
+                                              "headers_required": {"type"}, "default_language": "default"}, None, dg.node)
+            out_rows = list(itd.iterate(res_.get("data"), dg.node)) if isinstance(res_, dict) else None
+        except Raised as e:
+            out_rows = f"raises {e.exc_name}{e.exc_args}"
+        aliased = [j for j, o_ in enumerate(out_rows) if any(o_ is r_ for r_ in rows)] if isinstance(out_rows, list) else None
+        r7.check(isinstance(out_rows, list) and not aliased and rows == before, f"dealias_and_group_headers[{desc}]", "every returned row is a new dict and the caller's rows are as they were", dg.loc(),
+                 why_fail=(f"returned row(s) {aliased} ARE the caller's row objects: the row loop's pops then consume the caller's input" if aliased else repr(out_rows)[:160]))
 
 
 def _locally_created(fi, name) -> bool:
